@@ -7,6 +7,8 @@ def dispatch (line : String) : String :=
   | "wl" :: args => handleWl args
   | "wof" :: args => handleWof args
   | "lit" :: args => handleLit args
+  | "em" :: args => handleEm args
+  | "wcs" :: args => handleWcs args
   | _ => "bad-op"
 
 partial def loop (h : IO.FS.Stream) (out : IO.FS.Stream) : IO Unit := do
